@@ -240,7 +240,28 @@ class LoopClock:
         return self.loop.time()
 
 
-def run_case(si: int, vis: tuple[int, ...]) -> list[tuple[str, str]]:
+# what an imported ETS project configures for the addresses of remote values that declare no dpt_class of their own
+ETS_DPT = {"RemoteValueScaling": "5.001", "RemoteValueSwitch": "1.001", "RemoteValueUpDown": "1.008", "RemoteValueStep": "1.007", "RemoteValueColorRGBW": "251.600",
+           "RemoteValueTemp": "9.001", "RemoteValueString": "16.000"}
+
+
+def project_table(dev: Any) -> dict[Any, Any]:
+    """group address -> DPT as a project import would declare it: the remote value's own dpt_class, or the ETS type of its kind."""
+    rvs = list(dev._iter_remote_values())  # noqa: SLF001
+    mode = getattr(dev, "mode", None)
+    if mode is not None and hasattr(mode, "_iter_remote_values"):
+        rvs += list(mode._iter_remote_values())  # noqa: SLF001
+    table: dict[Any, Any] = {}
+    for rv in rvs:
+        dpt = getattr(rv, "dpt_class", None) or next((v for c in type(rv).__mro__ if (v := ETS_DPT.get(c.__name__))), None)
+        if dpt is None:
+            continue
+        for ga in rv.group_addresses():
+            table[ga] = dpt if isinstance(dpt, str) else {"main": dpt.dpt_main_number, "sub": dpt.dpt_sub_number}
+    return table
+
+
+def run_case(si: int, vis: tuple[int, ...], gadpt: bool = False) -> list[tuple[str, str]]:
     scn = scenarios()[si]
     viols: list[tuple[str, str]] = []
     saved = TC.time
@@ -249,6 +270,8 @@ def run_case(si: int, vis: tuple[int, ...]) -> list[tuple[str, str]]:
         try:
             dev = scn.build(w.xknx)
             w.xknx.devices.async_add(dev)
+            if gadpt:
+                w.xknx.group_address_dpt.set(project_table(dev))
             w.start()
             for ga, payload in scn.prepare:
                 w.incoming(Telegram(GroupAddress(ga), payload=GroupValueWrite(payload), source_address=IndividualAddress("1.1.9")))
@@ -275,7 +298,9 @@ def run_case(si: int, vis: tuple[int, ...]) -> list[tuple[str, str]]:
                 good = hist_ok(hist, rep) if hist_ok is not None else scn.ok(v, rep)
                 if not good:
                     kind = "first-command" if len(hist) == 1 else "after-previous-command"
-                    viols.append((f"loop-back-differs:{scn.label}:{kind}", f"{scn.label}: commands {hist!r} -> device reports {rep!r}; telegrams sent: {[(str(tg.destination_address), repr(tg.payload)) for _t, tg in sent]}"))
+                    if gadpt:
+                        kind += ":with-project-dpts"
+                    viols.append((f"loop-back-differs:{scn.label}:{kind}", f"{scn.label}{' [group_address_dpt configured as in a project import]' if gadpt else ''}: commands {hist!r} -> device reports {rep!r}; telegrams sent: {[(str(tg.destination_address), repr(tg.payload)) for _t, tg in sent]}"))
                     break
                 if not sent:
                     viols.append((f"no-telegram-sent:{scn.label}", f"{scn.label}: command {v!r} queued nothing"))
@@ -291,7 +316,16 @@ def run_case(si: int, vis: tuple[int, ...]) -> list[tuple[str, str]]:
     return viols
 
 
-def cases(thorough: bool) -> list[tuple[int, tuple[int, ...]]]:
+def cases(thorough: bool) -> list[tuple[int, tuple[int, ...], bool]]:
+    base = _cases(thorough)
+    out = [(si, vis, False) for si, vis in base]
+    # the same with the project's DPTs configured (the queue then attaches eagerly decoded values to the telegrams):
+    # quick: single commands and pairs for state-carrying setters; thorough: everything
+    out += [(si, vis, True) for si, vis in base if thorough or len(vis) == 1 or (scenarios()[si].pairs and len(vis) == 2)]
+    return out
+
+
+def _cases(thorough: bool) -> list[tuple[int, tuple[int, ...]]]:
     out: list[tuple[int, tuple[int, ...]]] = []
     for si, scn in enumerate(scenarios()):
         n = len(scn.values)
@@ -314,9 +348,9 @@ def worker(k: int, n: int, thorough: bool) -> Part:
     allc = cases(thorough)
     scns = scenarios()
     for i in range(k, len(allc), n):
-        si, vis = allc[i]
+        si, vis, gadpt = allc[i]
         try:
-            viols = run_case(si, vis)
+            viols = run_case(si, vis, gadpt)
         except Exception as exc:  # noqa: BLE001
             viols = [(exc_sig(f"escape:{scns[si].label}", exc), f"{scns[si].label} {vis}: {exc!r}")]
         part.evaluations += 1
@@ -324,7 +358,7 @@ def worker(k: int, n: int, thorough: bool) -> Part:
             part.nontrivial += 1
         part.outcomes[scns[si].label.split("(")[0] + (":violating" if viols else ":ok")] += 1
         for s, d in viols:
-            part.viol(s, d, [si, scns[si].label, list(vis)], rank=(len(vis), si, vis))
+            part.viol(s, d, [si, scns[si].label, list(vis), gadpt], rank=(len(vis), gadpt, si, vis))
         if part.evaluations <= 2:
             part.sample([scns[si].label, [repr(scns[si].values[v]) for v in vis]])
     return part
@@ -338,7 +372,8 @@ def run(ctx: Ctx) -> None:
         "set_target_temperature on a 0.1 K grid, climate mode: byte and binary operation modes, controller mode, heat/cool, numeric value and expose sensor over 17 value types, raw value, notification, date/time): "
         "real XKNX on the virtual loop, the command's telegrams pass the real queue, the fake interface, and are processed as outgoing by the device. EVERY value of each setter's alphabet (all 0..255 / 0..100 for "
         "scaled values) as a single command, as second command after the extreme values, and all pairs (triples for <=5 values) for state-carrying setters. Oracle: reported state = requested, or a nearest value of the "
-        "datapoint's decode image (exact arithmetic on the image)."
+        "datapoint's decode image (exact arithmetic on the image). Every single command (thorough: every case) is run a second time with xknx.group_address_dpt filled as a project import would "
+        "(each remote value's own DPT, 5.001 for scaled values, 1.001 for switches ...), so that the queue's eagerly decoded value is what RemoteValue.process sees."
     )
     allc = cases(ctx.thorough)
     ctx.bounds = {"scenarios": len(scns), "cases": len(allc)}
@@ -346,8 +381,9 @@ def run(ctx: Ctx) -> None:
 
 
 def replay(case: Any) -> list[tuple[str, str]]:
-    si, label, vis = case
+    si, label, vis = case[:3]
+    gadpt = bool(case[3]) if len(case) > 3 else False
     scns = scenarios()
     if scns[si].label != label:
         si = next(i for i, s in enumerate(scns) if s.label == label)
-    return run_case(si, tuple(vis))
+    return run_case(si, tuple(vis), gadpt)
